@@ -148,9 +148,12 @@ def gen_case(rng, params, idx):
     kwflavour = idx % 8 == 5
     if kwflavour:
         # value-dependent annotations on keyword-only parameters
+        # ... every fourth such program calls the parameter like the condition it is annotated with (`even_int: Dependent[
+        # int, even_int]`): the generated checking code must not confuse the argument with the object it injects
+        kwname = "even_int" if idx % 32 == 5 else "k1"
         for m in methods:
             if rng.random() < 0.7:
-                m["kw"] = [{"n": "k1", "t": rng.choice([["L", 1], ["L", 2, 3], ["D", "int", "even"], ["D", "int", "ge3"], "int", "object"]),
+                m["kw"] = [{"n": kwname, "t": rng.choice([["L", 1], ["L", 2, 3], ["D", "int", "even"], ["D", "int", "ge3"], "int", "object"]),
                             "req": rng.random() < 0.5}]
             if rng.random() < 0.5:
                 m["pos"][-1]["opt"] = True      # a trailing optional positional the caller may omit
